@@ -1,5 +1,5 @@
 """C18 - YAML snapshots keep the document verbatim."""
-import core, findings
+import core, findings, docs
 from core import World, hx, Line, parse_fs
 from gen import Gen, mode_line, cfg_line
 from suites import run_suite, parse_snap, esc, exp_silent
@@ -40,10 +40,23 @@ def make_world(g, tag):
     # a Go value, marshalled three times
     vdoc = '{"b": [1, 2, {"k": "v"}], "a": {"z": true, "y": null}, "name": "n", "m": {"e": 1, "d": 2, "c": 3, "f": 4, "g": 5}}'
     vidx = []
+    nested = []
     for j in range(3):
         t = 50 + j
         w.add('begin %d %s' % (t, hx(b'TestV%d' % j)))
-        vidx.append(w.add('yaml 1 %d v %s' % (t, hx(vdoc))))
+        ms = ''
+        if r.random() < 0.5:
+            # a user-defined matcher of this call records a snapshot of ANOTHER Go value while the call is
+            # between marshalling and storing (a helper asserting on another object; the sequential image of
+            # two parallel MatchYAML calls): each call must store its own document
+            nv = r.choice(['{"nested": %d}' % j, '{"nested": %d, "pad": "%s"}' % (j, 'p' * r.randint(0, 200)),
+                           '[%d, "nested"]' % j, '{"name": "other", "b": [3, 2, 1], "z": {"q": %d}}' % j])
+            w.add('begin %d %s' % (150 + j, hx(b'TestNestedV%d' % j)))
+            nested.append((w.add('nest yaml 1 %d v %s' % (150 + j, hx(nv))), j, nv))
+            ms = ' ' + docs.user_matcher(r.random() < 0.5, r.random() < 0.3, True)
+        vidx.append(w.add('yaml 1 %d v %s%s' % (t, hx(vdoc), ms)))
+        if ms:
+            w.add('end %d' % (150 + j))
         w.add('end %d' % t)
     before = w.add('fsdump')
     w.add('begin 90 %s' % hx(b'TestBad'))
@@ -55,9 +68,9 @@ def make_world(g, tag):
     w.add('yaml 1 90 s %s' % hx(r.choice(BAD)), ('invalid-yaml-fails', exp_bad))
     w.add('end 90')
 
-    def oracle(line, raw, ww):
+    def oracle(line, raw, ww, after_sort=False):
         fs = parse_fs(raw)
-        if fs != parse_fs(ww.impl[before]):
+        if not after_sort and fs != parse_fs(ww.impl[before]):
             return 'invalid YAML changed the directory'
         p = [x for x in fs if x.endswith(b'/f.snap')]
         ents = dict(parse_snap(fs[p[0]]) or []) if p else {}
@@ -71,8 +84,18 @@ def make_world(g, tag):
         vs = [ents.get(b'TestV%d - 1' % j) for j in range(3)]
         if len(set(vs)) != 1 or vs[0] is None:
             return 'the same Go value was marshalled to different YAML texts'
+        for _, j, nv in nested:
+            body = ents.get(b'TestNestedV%d - 1' % j)
+            if body is None or body == vs[0] or (b'nested' not in body and b'other' not in body):
+                return 'the Go value recorded from inside a matcher of another MatchYAML call was not stored as itself: %r' % (body[:80] if body else None)
         return None
     w.add('fsdump', ('yaml-verbatim', oracle))
+    # the end-of-run housekeeping a TestMain does: every entry was addressed, so nothing is stale, but the file is
+    # not in natural order (TestY.. were recorded before TestV..) and Clean rewrites it; the documents (flow
+    # sequences looking like headers, `---` inside block scalars, ...) must come out of the rewrite verbatim
+    if r.random() < 0.5:
+        w.add('clean 1 - 1')
+        w.add('fsdump', ('yaml-verbatim-after-sort', lambda line, raw, ww: oracle(line, raw, ww, True)))
     # replay in a read-only mode
     w.add('reset')
     w.add(mode_line(True, ''))
